@@ -66,7 +66,7 @@ func checkC03X(c C03Case, crossProcess bool) error {
 
 // ---- generator ------------------------------------------------------------------------------
 
-var c03Keys = []string{"a", "b", "c", "d", "e", "f", "g", "zz", "k1", "10", "9", "B", "_x", "ab"}
+var c03Keys = []string{"a", "b", "c", "d", "e", "f", "g", "zz", "k1", "10", "9", "B", "_x", "ab", "1", "01", "1.0", "1e0", "+1", "0x1"}
 
 func genMapDesc(t *rapid.T, depth int, label string) *E {
 	n := rapid.IntRange(2, 8).Draw(t, label+"n")
@@ -200,7 +200,20 @@ func genC03(t *rapid.T) (C03Case, []string, bool) {
 			letters = 4
 		}
 		unix := int64(rapid.IntRange(86400, 2000000000).Draw(t, "unix"))
-		ctx.Set("D", ZTime(unix))
+		switch rapid.IntRange(0, 3).Draw(t, "dateshape") {
+		case 0:
+			// a Unix timestamp as a number, also before 1970 (zero is the documented "now")
+			unix = int64(rapid.IntRange(-2000000000, 2000000000).Draw(t, "unixint"))
+			if unix == 0 {
+				unix = -1
+			}
+			ctx.Set("D", Int(unix))
+		case 1:
+			unix = int64(rapid.IntRange(-2000000000, -1).Draw(t, "unixneg"))
+			ctx.Set("D", ZT(Int(unix), "int64"))
+		default:
+			ctx.Set("D", ZTime(unix))
+		}
 		format := f.String()
 		src := "{{ D|date('" + format + "') }}"
 		want := refDate(time.Unix(unix, 0).UTC(), format)
